@@ -20,6 +20,8 @@ struct BandedSys {
     b: Vec<Vec<f64>>,
     cubic: f64,
     om: Vec<f64>,
+    /// optional nonsingular (diagonally dominant) mass matrix, its band independent of the Jacobian's
+    mass: Option<Vec<Vec<f64>>>,
 }
 impl BandedSys {
     fn random(rng: &mut Rng, n: usize, ml: usize, mu: usize, strong_offdiag: bool) -> Self {
@@ -45,7 +47,7 @@ impl BandedSys {
                 }
             }
         }
-        BandedSys { n, ml, mu, b, cubic: if rng.bool() { rng.range(0.0, 0.5) } else { 0.0 }, om: (0..n).map(|_| rng.range(0.3, 2.0)).collect() }
+        BandedSys { n, ml, mu, b, cubic: if rng.bool() { rng.range(0.0, 0.5) } else { 0.0 }, om: (0..n).map(|_| rng.range(0.3, 2.0)).collect(), mass: None }
     }
 }
 impl Problem for BandedSys {
@@ -70,8 +72,11 @@ impl Problem for BandedSys {
         }
         Some(j)
     }
+    fn mass_dense(&self) -> Option<Vec<Vec<f64>>> {
+        self.mass.clone()
+    }
     fn describe(&self) -> Value {
-        json!({"family": "banded_system", "n": self.n, "ml": self.ml, "mu": self.mu, "B": self.b, "cubic": self.cubic})
+        json!({"family": "banded_system", "n": self.n, "ml": self.ml, "mu": self.mu, "B": self.b, "cubic": self.cubic, "mass": self.mass})
     }
 }
 
@@ -454,11 +459,30 @@ pub fn run(ctx: &Ctx) -> (Report, Meta) {
                     (n_, rng.below(n_), rng.below(n_))
                 };
                 let strong = rng.chance(0.35);
-                let prob = BandedSys::random(&mut rng, nn, ml, mu, strong);
+                let mut prob = BandedSys::random(&mut rng, nn, ml, mu, strong);
                 let x0 = 0.0;
                 let xend = rng.range(0.5, 4.0);
                 let y0: Vec<f64> = (0..nn).map(|_| rng.range(-1.0, 1.0)).collect();
                 let mut scn = Scn::new(method, x0, xend, y0);
+                if method == Method::RADAU && rng.chance(0.4) {
+                    // a mass matrix whose band has nothing to do with the Jacobian's (often wider): the iteration matrices
+                    // fac*M - J are dense objects whatever the storage of J
+                    let (mml, mmu) = if rng.bool() { (nn - 1, nn - 1) } else { (rng.below(nn), rng.below(nn)) };
+                    let mut mm = vec![vec![0.0; nn]; nn];
+                    for r in 0..nn {
+                        for c in 0..nn {
+                            let k = r as isize - c as isize;
+                            if r == c {
+                                mm[r][c] = rng.range(0.8, 2.0);
+                            } else if k <= mml as isize && -k <= mmu as isize {
+                                mm[r][c] = rng.range(-0.3, 0.3) / nn as f64;
+                            }
+                        }
+                    }
+                    prob.mass = Some(mm);
+                    scn.mass_storage = if rng.bool() { MatrixStorage::Full } else { MatrixStorage::Banded { ml: mml, mu: mmu } };
+                    rep.count("jac_storage_cases_with_a_mass_matrix", 1);
+                }
                 let rt = rng.logu(1e-8, 1e-3);
                 scn.rtol = Tol::S(rt);
                 scn.atol = Tol::S(rt * 1e-2);
